@@ -20,7 +20,7 @@ Lemma elab_fields_exact rec intlit p o tf kind root target fs ms ks :
 Proof.
   revert ms ks. induction fs as [|fd fs IH]; intros ms ks; simpl.
   - intros H. inversion H. subst. split; [constructor|reflexivity].
-  - unfold kept_fields. simpl. destruct (field_kept target fd) eqn:Ek.
+  - destruct (f_id fd <? 0); [discriminate|]. unfold kept_fields. simpl. destruct (field_kept target fd) eqn:Ek.
     + destruct (rec (f_type fd)) as [d|] eqn:Er; [|discriminate].
       destruct (elab_fields rec intlit p o tf kind root target fs) as [[ms' ks']|] eqn:Ef; [|discriminate].
       intros H. inversion H. subst. destruct (IH ms' ks' eq_refl) as [H1 H2]. split.
@@ -142,9 +142,8 @@ Qed.
 
 (* the structure behind FieldByKey (trie or hash, whichever Build chooses) computes field_by_key for EVERY key *)
 Theorem struct_lookup_by_key d k :
-  (fnm_uses_hash (fnm_of_list (struct_keys d)) = true -> forall k0, In k0 (map fst (struct_keys d)) -> djb k0 <> 0) ->
   fnm_get (fnm_build (fnm_of_list (struct_keys d))) k = Some (field_by_key d k).
-Proof. intros H. unfold field_by_key. apply fnm_get_of_list. exact H. Qed.
+Proof. unfold field_by_key. apply fnm_get_of_list. Qed.
 
 (* the structure behind FieldById computes field_by_id for EVERY id (ids are non-negative: FieldID is a uint16) *)
 Theorem struct_lookup_by_id d :
